@@ -8,6 +8,7 @@ import (
 	"os"
 	"path/filepath"
 	"strconv"
+	"sync"
 	"sync/atomic"
 	"testing"
 	"time"
@@ -78,12 +79,28 @@ func TestC07Runs(t *testing.T) {
 			}
 			return 4 + int(h>>8)%(nkinds-4)
 		}
-		var passed, failed, dirty atomic.Int64
+		var passed, failed, dirty, shared atomic.Int64
+		// iterations that outlive the stage (or tick) that started them: in file mode the next
+		// stage's pool starts while they are still running
+		straddle := mode == "file" || r.Chance(30)
+		var liveMu sync.Mutex
+		live := map[*f1testing.T]bool{}
 		scenario := func(*f1testing.T) f1testing.RunFn {
 			return func(t *f1testing.T) {
 				if t.Failed() {
 					dirty.Add(1)
 				}
+				liveMu.Lock()
+				if live[t] {
+					shared.Add(1)
+				}
+				live[t] = true
+				liveMu.Unlock()
+				defer func() {
+					liveMu.Lock()
+					delete(live, t)
+					liveMu.Unlock()
+				}()
 				id, _ := strconv.ParseUint(t.Iteration, 10, 64)
 				k := kindOf(id)
 				if k >= 4 {
@@ -91,6 +108,17 @@ func TestC07Runs(t *testing.T) {
 				} else {
 					passed.Add(1)
 				}
+				if !straddle {
+					behave(t, k)
+					return
+				}
+				d := time.Duration(((id*0x2545F4914F6CDD1D^salt)>>40)%70) * time.Millisecond
+				if k >= 4 && k <= 6 { // non-fatal marks: the failure is on record while the body goes on
+					behave(t, k)
+					time.Sleep(d)
+					return
+				}
+				time.Sleep(d)
 				behave(t, k)
 			}
 		}
@@ -114,6 +142,14 @@ func TestC07Runs(t *testing.T) {
 		}
 		if dirty.Load() > 0 {
 			o.Fail("dirty-handle", "T.Failed() was already true at body entry in mode "+mode)
+		}
+		if shared.Load() > 0 {
+			o.Fail("shared-handle", "an iteration was started on a T that another iteration was still running on ("+strconv.FormatInt(shared.Load(), 10)+" times, mode "+mode+", bodies outliving their stage)")
+		}
+		if straddle {
+			o.Count("bodies", "outliving their tick/stage")
+		} else {
+			o.Count("bodies", "instant")
 		}
 		sn := out.Result.Snapshot()
 		iter, _, _ := runkit.SampleCounts(out.Metrics)
